@@ -164,3 +164,105 @@ Definition sort_by (lt : nat -> nat -> bool) (l : list nat) : list nat :=
 Definition sort_keys (p : projection) (ks : list nat) : list nat := sort_by (key_less p) ks.
 
 End Sort.
+
+(** * Specification of the [num] and [fixed] orders (declarative; used by
+    Proofs/NumSpec.v and evaluated on the implementation by Corr/RunC09.v)
+
+    The value a string denotes under [@num]:
+    - if strconv.ParseFloat accepts the whole string: that float;
+    - otherwise look at the leftmost maximal run of bytes in [0-9.]: if there is
+      none, or ParseFloat rejects the run, the string is not a number; otherwise
+      the run's float [v] is scaled by the suffix that follows the run: a letter
+      of k K M G T P E Z Y means 1000^e with e = 1 1 2 3 4 5 6 7 8, and 1024^e
+      when the letter is followed by 'i'; anything else (including a bare b/B)
+      means 1. The multiplier is the EXACT integer, correctly rounded to
+      binary64 ([b64_of_Z]; exact for every multiplier except 1000^8 = 10^24),
+      and the product is one IEEE multiplication: v x RN(multiplier). (So the
+      specification says which two floats are multiplied and how; it does not
+      claim the result is the correctly rounded exact product.)
+    The order: numbers before non-numbers; NaN after all other numbers;
+    otherwise by [<] on the values; everything else ties (and [less] then falls
+    back to string order). *)
+Section NumSpec.
+Variable parse_float : bytes -> option b64.
+
+Fixpoint drop_while (f : byte -> bool) (s : bytes) : bytes :=
+  match s with
+  | [] => []
+  | c :: s' => if f c then drop_while f s' else s
+  end.
+Fixpoint take_while (f : byte -> bool) (s : bytes) : bytes :=
+  match s with
+  | [] => []
+  | c :: s' => if f c then c :: take_while f s' else []
+  end.
+
+(** prefix letter -> exponent *)
+Definition si_exponents : list (byte * nat) :=
+  [(x6b, 1%nat); (x4b, 1%nat); (x4d, 2%nat); (x47, 3%nat); (x54, 4%nat); (x50, 5%nat);
+   (x45, 6%nat); (x5a, 7%nat); (x59, 8%nat)].   (* k K M G T P E Z Y *)
+
+Fixpoint assoc_byte (c : byte) (t : list (byte * nat)) : option nat :=
+  match t with
+  | [] => None
+  | (d, e) :: t' => if Byte.eqb d c then Some e else assoc_byte c t'
+  end.
+
+(** the exact integer multiplier announced by what follows the digits *)
+Definition suffix_multiplier (rest : bytes) : Z :=
+  match rest with
+  | p :: rest' =>
+      match assoc_byte p si_exponents with
+      | Some e =>
+          match rest' with
+          | i :: _ => if Byte.eqb i c_i then 1024 ^ Z.of_nat e else 1000 ^ Z.of_nat e
+          | [] => 1000 ^ Z.of_nat e
+          end
+      | None => 1
+      end
+  | [] => 1
+  end.
+
+Definition num_denote (x : bytes) : option b64 :=
+  match parse_float x with
+  | Some v => Some v
+  | None =>
+      let s := drop_while (fun c => negb (is_numch c)) x in
+      let run := take_while is_numch s in
+      match run with
+      | [] => None
+      | _ => match parse_float run with
+             | Some v => Some (b64_mul v (b64_of_Z (suffix_multiplier (drop_while is_numch s))))
+             | None => None
+             end
+      end
+  end.
+
+(** numbers (0) before NaN (1) before non-numbers (2) *)
+Definition num_class (d : option b64) : nat :=
+  match d with
+  | Some v => if b64_is_nan v then 1%nat else 0%nat
+  | None => 2%nat
+  end.
+
+Definition num_order (da db : option b64) : comparison :=
+  match Nat.compare (num_class da) (num_class db) with
+  | Eq => match da, db with
+          | Some x, Some y => if b64_lt x y then Lt else if b64_lt y x then Gt else Eq
+          | _, _ => Eq
+          end
+  | c => c
+  end.
+
+(** [a] sorts before [b] in a num field *)
+Definition num_before (a b : bytes) : bool :=
+  match num_order (num_denote a) (num_denote b) with
+  | Lt => true
+  | Gt => false
+  | Eq => bltb a b
+  end.
+End NumSpec.
+
+(** fixed lists: position [p] is the last place where [v] is listed *)
+Definition last_listed_at (l : list bytes) (v : bytes) (p : nat) : Prop :=
+  nth_error l p = Some v /\ forall q, (p < q)%nat -> nth_error l q <> Some v.
